@@ -211,14 +211,24 @@ Definition zone_secs (z : zone) (tz : Z) : option Z :=
   | ZoneName _ name => name_secs name
   end.
 
+(* The definitions below are stated for an arbitrary day-count function so that the
+   correspondence run may evaluate them with a proved-equal closed form
+   (Proofs/CalendarProofs.v: spec_days_fast_eq); the specification is the instance
+   [days := spec_days], the definitional count. *)
+Section WithDays.
+Variable days : Z -> Z -> Z -> Z.
+
+Definition instant_with (y m d h mi s frac off : Z) : Z :=
+  (days y m d * 86400 + h * 3600 + mi * 60 + s - off) * 1000000000 + frac.
+
 (* [tz]: the --tz-offset zone (seconds east); [now_s]: program start, whole seconds;
    [other]: the other bound when it is already known *)
-Definition denote (f : form) (tz now_s : Z) (other : option Z) : option Z :=
+Definition denote_with (f : form) (tz now_s : Z) (other : option Z) : option Z :=
   match f with
-  | FDate _ y m d => Some (spec_instant y m d 0 0 0 0 tz)
+  | FDate _ y m d => Some (instant_with y m d 0 0 0 0 tz)
   | FDateTime _ y m d h mi s fr z =>
     match zone_secs z tz with
-    | Some off => Some (spec_instant y m d h mi s (frac_ns fr) off)
+    | Some off => Some (instant_with y m d h mi s (frac_ns fr) off)
     | None => None
     end
   | FEpoch ds => Some (dval ds * NSs)
@@ -233,28 +243,33 @@ Definition denote (f : form) (tz now_s : Z) (other : option Z) : option Z :=
 Definition is_at (f : option form) : bool :=
   match f with Some (FRel true _ _) => true | _ => false end.
 
-Definition denote_opt (f : option form) (tz now_s : Z) (other : option Z) : option (option Z) :=
+Definition denote_opt_with (f : option form) (tz now_s : Z) (other : option Z) : option (option Z) :=
   match f with
   | None => Some None
-  | Some f => match denote f tz now_s other with Some v => Some (Some v) | None => None end
+  | Some f => match denote_with f tz now_s other with Some v => Some (Some v) | None => None end
   end.
 
 (* the documented outcome of `-a A -b B`: None = rejected (non-zero exit, nothing printed) *)
-Definition spec_bounds (fa fb : option form) (tz now_s : Z) : option (option Z * option Z) :=
+Definition spec_bounds_with (fa fb : option form) (tz now_s : Z) : option (option Z * option Z) :=
   if is_at fa && is_at fb then None
   else
     let ab :=
       if is_at fa then
-        match denote_opt fb tz now_s None with
+        match denote_opt_with fb tz now_s None with
         | None => None
-        | Some b => match denote_opt fa tz now_s b with None => None | Some a => Some (a, b) end
+        | Some b => match denote_opt_with fa tz now_s b with None => None | Some a => Some (a, b) end
         end
       else
-        match denote_opt fa tz now_s None with
+        match denote_opt_with fa tz now_s None with
         | None => None
-        | Some a => match denote_opt fb tz now_s a with None => None | Some b => Some (a, b) end
+        | Some a => match denote_opt_with fb tz now_s a with None => None | Some b => Some (a, b) end
         end in
     match ab with
     | Some (Some a, Some b) => if b <? a then None else ab
     | _ => ab
     end.
+End WithDays.
+
+Definition denote := denote_with spec_days.
+Definition denote_opt := denote_opt_with spec_days.
+Definition spec_bounds := spec_bounds_with spec_days.
